@@ -40,6 +40,22 @@ VARIANTS = {
     "rename_normal_locals": [(S + "Attribs/NormalAttribT_impl.hh", [(r"\bhalffaces\b", "boundary"), (r"\bvoh_it\b", "oh"), (r"\bhehf_it\b", "hf"), (r"\bhf_it\b", "it"), (r"\b_vh\b", "_v"), (r"\b_fh\b", "_f")]),
                              (S + "Attribs/NormalAttrib.hh", [(r"\bmult\b", "sign")])],
     "rename_swap_bool": [(S + "Core/detail/swap_bool.hh", [(r"\btmp\b", "saved"), (r"\ba\b", "lhs"), (r"\bb\b", "rhs")])],
+    # formulations touched by the rules of the fuzzing / probing rounds (F34-F48): other spellings of the same behaviour
+    "respell_late_fixes": [
+        (S + "IO/detail/Decoder.cc", [(r"if \(n == 0\) \{", "if (0 == n) {")]),
+        (S + "FileManager/Serializers.cc", [(r"size_t size = 0;", "size_t size{0};"), (r"bool b = false;", "bool b{false};")]),
+        (S + "FileManager/SerializersT_impl.hh", [(r"size_t size = 0;", "size_t size(0);")]),
+        (S + "FileManager/FileManagerT_impl.hh", [(r"size_t n_cells = 0;", "size_t n_cells{0u};")]),
+        (S + "Core/Properties/PropertyStorageT.hh", [(r"value_type val = false;", "value_type val{false};")]),
+        (S + "Mesh/TetrahedralMeshTopologyKernel.cc", [(r"if \(vhs\.size\(\) != 4\) \{", "if (4 != vhs.size()) {"), (r"\bfirst_new_edge\b", "edges_before"), (r"\bfirst_new_face\b", "faces_before"),
+                                                       (r"if \(heh\.edge_handle\(\)\.uidx\(\) >= edges_before\)", "if (edges_before <= heh.edge_handle().uidx())")]),
+        (S + "Mesh/HexahedralMeshTopologyKernel.cc", [(r"\ball_vertices\b", "corner_set"), (r"\bfront\b(?!\()", "near_side"), (r"return corner_set\.size\(\) == 8;", "return 8 == corner_set.size();")]),
+        (S + "Core/TopologyKernel.cc", [(r"\boppositeInCell\b", "flipSide"), (r"\bhfhs\b", "both_cells_hfs"),
+                                        (r"if\(is_deleted\(EdgeHandle\(i\)\)\) \{", "if(edge_deleted_[EdgeHandle(i)]) {")]),
+        (S + "Core/GeometryKernel.hh", [(r"if\(_hfh\.subidx\(\) == 1\) \{", "if(1 == _hfh.subidx()) {")]),
+        (S + "Core/ResourceManagerT_impl.hh", [(r"if \(_name\.empty\(\)\)\n        return \{\};", "if (_name.empty()) {\n        return {};\n    }")]),
+        (S + "Geometry/Vector11T.hh", [(r"if \(r < l\) \{", "if (l > r) {"), (r"if \(r > l\) \{", "if (l < r) {")]),
+    ],
     "flip_comparisons": [(S + "Core/TopologyKernel.cc", [
         (r"if\(halfedge\(\*voh_it\)\.to_vertex\(\) == _vh2\)", "if(_vh2 == halfedge(*voh_it).to_vertex())"),
         (r"from_vertex_handle\(heh\) == _vh1 && to_vertex_handle\(heh\) == _vh2", "_vh1 == from_vertex_handle(heh) && _vh2 == to_vertex_handle(heh)"),
